@@ -85,6 +85,19 @@ def lambda_leaves_p():
             "o/ps/any(q: q/w/o/label eq 'l')", "o/ps/any(q: q/dept/id eq 2)", "kids/any(k: k/o/id eq 4)",
             # names the collection's model lacks although an enclosing model has them: never true on any child row
             "kids/any(k: k/a eq 2)", "kids/any(k: k/a gt 0 or k/x eq 2)", "tags/any(t: t/a ge 0)", "o/ps/any(q: q/n eq 5)", "kids/all(k: k/s eq 'a')"]
+    # two sibling lambdas over the SAME collection, operator and variable, joined by and / or (merging them into one lambda is sound only for any-or and all-and)
+    for coll, v, bodies in (("kids", "k", ["k/x eq 2", "k/x eq 7", "k/x gt 0", "k/x ne 2"]), ("tags", "t", ["t/label eq 'l'", "t/label eq 'm'", "t/id gt 1"]),
+                            ("o/ps", "q", ["q/a gt 0", "q/a eq 2"])):
+        for b1 in bodies:
+            for b2 in bodies:
+                if b1 < b2:
+                    for op in ("any", "all"):
+                        for j in ("and", "or"):
+                            out.append(f"{coll}/{op}({v}: {b1}) {j} {coll}/{op}({v}: {b2})")
+                    out.append(f"not ({coll}/any({v}: {b1}) and {coll}/any({v}: {b2}))")
+                    out.append(f"{coll}/any({v}: {b1}) and {coll}/any({v}: {b2}) and {coll}/any({v}: {b1} and {b2})")
+        out.append(f"{coll}/any() and {coll}/any({v}: {bodies[0]})")
+        out.append(f"{coll}/any() and not {coll}/any({v}: {bodies[0]})")
     return out
 
 def gen_filter(rng, depth):
